@@ -47,6 +47,11 @@ EXPR_PARAM = {"Phaseshifter": "phi", "Beamsplitter": "theta", "Kerr": "xi", "Cro
               "MomentumDisplacement": "p"}
 
 
+# second scalar parameter of the same gate (both may depend on outcomes at once)
+EXPR_PARAM2 = {"Beamsplitter": "phi", "Squeezing": "phi", "Displacement": "phi",
+               "MachZehnder": "ext", "Squeezing2": "phi"}
+
+
 def n_outcomes(step) -> int:
     if step["k"] != "measure":
         return 0
@@ -128,6 +133,9 @@ def adaptive_program(draw, sim: str, max_meas: int = 3, allow_postselect: bool =
                     step["when_lambda"] = draw(st.booleans())
                 if g["g"] in EXPR_PARAM and draw(st.integers(0, 2)) == 0:
                     step["pexpr"] = {EXPR_PARAM[g["g"]]: draw(param_expr(nout, continuous))}
+                    if g["g"] in EXPR_PARAM2 and draw(st.booleans()):
+                        step["pexpr"][EXPR_PARAM2[g["g"]]] = draw(
+                            param_expr(nout, continuous))
                     step["pexpr_lambda"] = draw(st.booleans())
             steps.append(step)
         elif kind == "measure":
